@@ -624,3 +624,56 @@ pub fn validate_ops(
 pub fn ops_json(ops: &[DiffOp]) -> serde_json::Value {
     serde_json::Value::Array(ops.iter().map(|o| serde_json::Value::String(format!("{:?}", o))).collect())
 }
+
+// ---------------------------------------------------------------- hooks of /repo (cfg similar_verif)
+
+use std::cell::Cell;
+use std::rc::Rc;
+
+/// Symbolic virtual clock (hook H1): every deadline probe is a z3 Bool with a
+/// latch (`expired at probe k` implies `expired at probe k+1`).
+pub struct Clock {
+    pub probes: Rc<Cell<u32>>,
+    pub fired_at: Rc<Cell<Option<u32>>>,
+}
+
+pub fn install_clock() -> Clock {
+    let probes = Rc::new(Cell::new(0u32));
+    let fired_at = Rc::new(Cell::new(None));
+    let (p2, f2) = (probes.clone(), fired_at.clone());
+    let mut prev: Option<u32> = None;
+    similar::verif_clock::install(Some(Box::new(move || {
+        let k = p2.get();
+        p2.set(k + 1);
+        if f2.get().is_some() {
+            // latched: stays expired
+            return true;
+        }
+        let b = engine::fresh_bool();
+        if let Some(p) = prev {
+            engine::assume_nocheck(&F::imp(
+                F::A(engine::Atom::B(p)),
+                F::A(engine::Atom::B(b)),
+            ));
+        }
+        prev = Some(b);
+        let r = engine::decide(engine::Atom::B(b));
+        if r {
+            f2.set(Some(k));
+            engine::mark_cmps_once();
+        }
+        r
+    })));
+    Clock { probes, fired_at }
+}
+
+/// Every run starts from a clean hook state.
+pub fn reset_hooks() {
+    similar::verif_clock::install(None);
+    similar::algorithms::verif_swap::set_repair(false);
+    similar::algorithms::verif_swap::reset_swaps();
+}
+
+pub fn any_instant() -> Option<std::time::Instant> {
+    Some(std::time::Instant::now())
+}
